@@ -834,6 +834,45 @@ func isT[T any](v interface{}) bool {
 	return ok
 }
 `}}},
+		// comparison and addition on operands of a DECLARED integer / string type
+		mk("declaredtypes", `	c := lvl(a)
+	d := lvl(b)
+	v := key(x)
+	w := key(y)
+	if c >= d {
+		return int(c + d), string(v + w)
+	} else {
+		if v > w {
+			return int(d - c), x
+		}
+		return int(d + c), y
+	}`),
+		// a value that is never used but whose computation can panic (a shift by a negative count)
+		Base{Name: "F", ID: "deadshift", Src: "func F" + sig + ` {
+	_ = a << b
+	return a, x
+}
+`, Manual: []ManualEdit{{"the unused shift (which panics for a negative count) is deleted", "func F" + sig + ` {
+	return a, x
+}
+`}}},
+		Base{Name: "F", ID: "deadifacecompare", Src: "func F" + sig + ` {
+	var e, g interface{} = s, s
+	if a > 0 {
+		e, g = a, b
+	}
+	_ = e == g
+	return b, y
+}
+`, Manual: []ManualEdit{{"the unused comparison of two interface values (which panics when both hold a slice) is deleted", "func F" + sig + ` {
+	var e, g interface{} = s, s
+	if a > 0 {
+		e, g = a, b
+	}
+	_, _ = e, g
+	return b, y
+}
+`}}},
 		// a builtin that can panic (unsafe.Slice with a negative length) inside a loop that may not run
 		Base{Name: "F", ID: "unsafeslice", Src: "func F" + sig + " {\n" + `	t := 0
 	var e [4]int
